@@ -159,6 +159,13 @@ class C10(Campaign):
         ids = [s["id"] for s in prog["states"]]
         for op in ops[1:]:
             r = rnd.random()
+            if not pending_invalid and mk != "none" and rnd.random() < 0.1:
+                # re-attach: a new machine over the same model must read what is stored there
+                n2 = dict(ops[0])
+                n2["keep_model"] = True
+                if rnd.random() < 0.5:
+                    n2.pop("start_value", None)
+                out.append(n2)
             if pending_invalid or r < 0.3:
                 w = rnd.random()
                 sid = rnd.choice(ids)
@@ -189,6 +196,17 @@ class C10(Campaign):
                                                   and repr(o["value"]) in ("'nope'", "99", "-77")
                                                   and repr(o["value"]) in vals)]
         return sc
+
+    def evaluate(self, sc):
+        prog = sc["programs"][0]
+        if any(m_.get("async") for m_ in prog["cbs"].values()):
+            # envelope (also enforced on minimisation candidates): an async machine is activated
+            # explicitly right after its first construction, before anything is written
+            ops = sc["ops"]
+            if len(ops) > 1 and ops[1]["op"] != "activate":
+                return {"violations": [], "unarmed": ["invalid"], "mstats": {},
+                        "res": {"trace": [], "outs": [], "stats": {}, "digest": "invalid", "never_awaited": []}}
+        return super().evaluate(sc)
 
     def extra_checks(self, sc, res, m, unarmed):
         if any(u in self.DESYNC for u in unarmed):
@@ -232,6 +250,8 @@ class C10(Campaign):
         for o in sc["ops"]:
             if o["op"] == "write":
                 c["fault.external-write-" + o["how"]] = c.get("fault.external-write-" + o["how"], 0) + 1
+            if o.get("keep_model"):
+                c["fault.re-attach-over-stored-value"] = c.get("fault.re-attach-over-stored-value", 0) + 1
         if sc["ops"][0].get("start_value") is not None:
             c["probe.start_value"] = 1
             if not sc["ops"][0]["start_value"] or sc["ops"][0]["start_value"] == {"$tu": []}:
